@@ -95,7 +95,7 @@ def serialize_well_known_encoding(
     else:
         known_type = encoding.id
 
-    if known_type is None:
+    if known_type is None or known_type < 0:  # negative ids are parser sentinels, they have no wire representation
         serialized = serialize_128max_value(encoding)
     else:
         serialized = ((1 << 7) | known_type & 0b1111111).to_bytes(1, 'big')
